@@ -36,7 +36,8 @@ VARIABLE i
 
 RangeOf(seq) == {seq[j] : j \in DOMAIN seq}
 LayOf(j) == [sites |-> RangeOf(j.sites), wraps |-> RangeOf(j.wraps),
-             nests |-> RangeOf(j.nests), semi |-> j.semi]
+             nests |-> RangeOf(j.nests), empties |-> RangeOf(j.empties),
+             semi |-> j.semi]
 
 SpanBad(p, s) ==
   LET h == p.H[s[1] + 1] IN
